@@ -26,6 +26,7 @@ fn corpus(tier: Tier) -> Vec<(String, PProblem)> {
         let per = match (name, tier) {
             ("core", Tier::Quick) => 40,
             ("core", _) => 400,
+            ("places", _) => 400,
             (_, Tier::Quick) => 8,
             _ => 60,
         };
@@ -259,6 +260,11 @@ fn judge_pair(family: &str, problem: &PProblem, cfg: &SolveCfg, report: &mut Rep
                     })
                 })
             });
+            // "load mismatch at stop N" / "at stops N, M": one class
+            let normalized = if normalized.starts_with("load mismatch") { "load mismatch".to_string() } else { normalized };
+            if std::env::var("VERIF_DUMP").is_ok() {
+                eprintln!("PROBLEM {}\nMATRICES {}\nSOLUTION {}", problem.problem_json(), json!(problem.matrices_json()), solved.json);
+            }
             report.violation(Violation::new(
                 format!("valid-solution-rejected:{normalized}{}", if shares_stop_with_reload { ":job-and-reload-in-one-stop" } else { "" }),
                 format!("{errs:?}"),
@@ -282,11 +288,22 @@ fn judge_pair(family: &str, problem: &PProblem, cfg: &SolveCfg, report: &mut Rep
         let mscen = json!({"family": family, "problem": problem.name, "cfg": cfg.to_json(), "class": m.class, "site": m.site});
         match run_checker(&m.problem.problem_json(), &m.problem.matrices_json(), &m.solution) {
             Ok(Err(_)) => {}
-            Ok(Ok(())) => report.violation(Violation::new(
-                format!("breach-accepted:{}", m.class),
+            Ok(Ok(())) => {
+                if std::env::var("VERIF_DUMP").is_ok() {
+                    eprintln!("PROBLEM {}\nMATRICES {}\nSOLUTION {}", m.problem.problem_json(), json!(m.problem.matrices_json()), m.solution);
+                    for f in &findings {
+                        eprintln!("FINDING {} :: {}", f.rule, f.what);
+                    }
+                }
+                // a tour whose activities all happen at the start location has one stop only (no legs)
+                let tour_idx: Option<usize> = m.site.strip_prefix("tour ").and_then(|r| r.split(' ').next()).and_then(|d| d.parse().ok());
+                let single_stop = tour_idx.and_then(|ti| m.solution["tours"][ti]["stops"].as_array().map(|s| s.len() == 1)).unwrap_or(false);
+                report.violation(Violation::new(
+                format!("breach-accepted:{}{}", m.class, if single_stop { ":single-stop-tour" } else { "" }),
                 format!("{} at {}: the checker accepts, the oracle says {:?}", m.class, m.site, findings.iter().map(|f| f.rule.clone()).take(3).collect::<Vec<_>>()),
                 mscen,
-            )),
+            ))
+            }
             // the checker refusing to even look at a malformed solution counts as rejection, a panic does not
             Err(e) if e.starts_with("panic") => report.violation(Violation::new(format!("checker-panic:{}@{}", m.class, panic_site(&e)), e, mscen)),
             Err(_) => {}
